@@ -10,7 +10,7 @@ import traceback
 os.environ.setdefault("__TRANSACTRON_LOG_LEVEL", "DEBUG")
 os.environ.setdefault("__TRANSACTRON_LOG_FILTER", ".*")
 
-from amaranth import Elaboratable, Signal, signed, Const, Cat  # noqa: E402
+from amaranth import C, Elaboratable, Signal, signed, Const, Cat  # noqa: E402
 from transactron import TModule, Transaction, Method, def_method  # noqa: E402
 from transactron.lib import AdapterTrans  # noqa: E402
 from transactron.testing import PysimSimulator, TestCaseWithSimulatorBase  # noqa: E402
@@ -78,18 +78,20 @@ class Design(Elaboratable):
                     fmt += "{" + (":" + f if f else "") + "}" + rnd.choice(["", " ", ",", " end"])
             trig = Signal(name=f"trig{s}")
             ctxk = rnd.choice(["top", "if", "body", "method_body", "toplog", "assertion"]) if level != logging.ERROR else rnd.choice(["top", "if", "body", "toplog", "assertion"])
-            plan.append(dict(logger=lg, level=level, fmt=fmt, fields=fields, trig=trig, ctx=ctxk, site=s))
+            # 40% of the triggers are multi-bit values that are non-zero exactly when the trigger holds and always have bit 0 clear
+            plan.append(dict(logger=lg, level=level, fmt=fmt, fields=fields, trig=trig, ctx=ctxk, site=s, wide=rnd.random() < 0.4))
 
         def emit(p):
             lg, args = p["logger"], [f[0] for f in p["fields"]]
+            tv = Cat(C(0, 1), p["trig"] & self.sel, p["trig"] & ~self.sel) if p["wide"] else p["trig"]
             if p["ctx"] == "toplog":
-                lg.top_log(p["level"], p["trig"], p["fmt"], *args)
+                lg.top_log(p["level"], tv, p["fmt"], *args)
             elif p["ctx"] == "assertion":
                 p["level"] = logging.ERROR
                 # a multi-bit asserted value: non-zero (but never all ones) while the assertion holds, zero when it fails
                 lg.assertion(m, Cat(~p["trig"] & self.sel, ~p["trig"] & ~self.sel), p["fmt"], *args)
             else:
-                lg.log(m, p["level"], p["trig"], p["fmt"], *args)
+                lg.log(m, p["level"], tv, p["fmt"], *args)
 
         order = []
         for p in plan:
